@@ -52,8 +52,13 @@ func Generate(wl, mode string, seed, run uint64, tier string) *plan.Plan {
 	panic("unknown workload " + wl)
 }
 
-// RunPlan executes a plan and returns its result.
+// RunPlan executes a plan (after its prelude, if any) and returns its result.
 func RunPlan(p *plan.Plan, keepLog bool) *plan.Result {
+	for _, ref := range p.Prelude {
+		q := Generate(ref.Workload, ref.Mode, ref.Seed, ref.Run, ref.Tier)
+		q.Prelude = nil
+		RunPlan(q, false)
+	}
 	var res *plan.Result
 	switch p.Workload {
 	case "c18":
